@@ -625,6 +625,8 @@ CHUNK = st.one_of(
     st.tuples(st.sampled_from(VERBS), ARG).map(lambda t: t[0].encode() + (b" " + t[1] if t[1] else b"") + b"\r\n"),
     st.tuples(st.sampled_from(VERBS), ARG).map(lambda t: t[0].lower().encode() + b" " + t[1] + b"\n"),
     st.binary(min_size=1, max_size=40), st.just(b"\r\n"), st.just(b"\n\n\n"), st.just(b"USER anonymous\r\n"),
+    st.sampled_from([b"USER alice\r\n", b"PASS secret\r\n", b"PASS x\r\n", b"USER alice\r\nUSER \xff\r\n", b"USER alice\r\nUSER alice\r\n",
+                     b"USER alice\r\nUSER nobody\x00\r\n"]),
     st.just(b"USER anonymous\r\nEPSV\r\nLIST\r\n"), st.just(b"x" * 66000), st.just(b"\xff" * 100 + b"\r\n"))
 CLI_CASE = st.tuples(st.lists(CHUNK, min_size=1, max_size=12), st.booleans(), st.lists(st.integers(0, 255), max_size=20))
 
@@ -659,7 +661,8 @@ def solo_neighbour():
 
 
 async def _hostile_client(loop, chunks, fin, result):
-    server = aioftp.Server(path_io_factory=aioftp.MemoryPathIO, wait_future_timeout=2, idle_timeout=None)
+    users = [aioftp.User(maximum_connections=4), aioftp.User("alice", "secret", maximum_connections=3)]
+    server = aioftp.Server(users, path_io_factory=aioftp.MemoryPathIO, wait_future_timeout=2, idle_timeout=None, maximum_connections=6)
     await server.start(HOST, PORT)
     nb = ScriptRunner(render(CORPUS["tour"], "/n"))
     nbt = asyncio.ensure_future(nb.run())
@@ -688,6 +691,13 @@ async def _hostile_client(loop, chunks, fin, result):
     nb.close()
     await asyncio.sleep(1.0)
     leaks = ledger(loop, server, PORT)
+    # connection slots are resources of the session too
+    if server.available_connections.value != 6:
+        leaks["server_connection_slots"] = server.available_connections.value
+    for u in users:
+        v = server.user_manager.available_connections[u].value
+        if v != u.maximum_connections:
+            leaks["user_connection_slots_" + (u.login or "anonymous")] = v
     # the server must still serve a fresh session
     fresh = Raw(HOST, PORT, patience=20)
     codes = [(await fresh.connect())[0], (await fresh.cmd("USER anonymous"))[0], (await fresh.cmd("PWD"))[0]]
